@@ -27,10 +27,6 @@ pub mod b6_ax {
     /// byte string a `Pattern` argument stands for (only `&str` is given a meaning)
     pub uninterp spec fn pat<P>(p: P) -> Seq<u8>;
     pub broadcast axiom fn pat_str(p: &str) ensures #[trigger] pat::<&str>(p) == p.spec_bytes();
-    // TRUSTED (A-STR): `Display for String` writes the string itself, so `String::to_string` is a copy (vstd ships the
-    // corresponding axiom for `str` only)
-    pub broadcast axiom fn to_string_ensures_for_string(s: &String, r: String)
-        ensures #[trigger] vstd::string::to_string_from_display_ensures::<String>(s, r) <==> s@ == r@;
 }
 pub use b6_ax::{trim_ws, dur_ns, display_sub, display_topic, pat};
 
@@ -65,6 +61,7 @@ impl TopicName {
     pub fn to_string(&self) -> (r: String) ensures r@ == display_topic(*self) { unimplemented!() }
 }
 //@include prelude/status.rs
+//@include prelude/string_conv.rs
 
 // ---- TRUSTED (A-STUB): field-exact mirrors of the prost-generated structs (all fields of the ones built here; a
 // renamed or retyped field makes the assembled file fail to compile -> UNDECIDED)
@@ -181,7 +178,7 @@ pub mod subscriber {
     use super::pubsub_proto::push_config::{AuthenticationMethod, OidcToken};
     use super::pubsub_proto::{PushConfig, Subscription};
     use super::subscriptions::SubscriptionInfo;
-    broadcast use {vstd::std_specs::hash::group_hash_axioms, super::b6_ax::axiom_string_key_model, super::b6_ax::to_string_ensures_for_string};
+    broadcast use {vstd::std_specs::hash::group_hash_axioms, super::b6_ax::axiom_string_key_model, super::string_conv_ax::to_string_ensures_for_string};
 
     /// the topic field of a subscription whose topic was deleted: the fixed marker (deltio's spelling, or the one of the
     /// Pub/Sub API; the property only says "reports its topic as deleted")
